@@ -45,13 +45,54 @@ let str_chunks (cs : M.n list M.chunk list) =
 
 let panic_str = function M.PIndex -> "panic:index" | M.PNil -> "panic:nil" | M.PMerge -> "panic:other"
 
-let parse_input inp =
+(* ---- histories: H <ops> <script> <lhs> <rhs> / HC <ops> <lhs> <rhs> *)
+let parse_ops s : M.hop list =
+  if s = "." then [] else
+  List.map (fun w ->
+    if w = "u" then M.HUnify
+    else if String.length w >= 2 && w.[0] = 'a' then M.HAdd (z_of_string (String.sub w 1 (String.length w - 1)))
+    else failwith ("bad op " ^ w)) (String.split_on_char ',' s)
+
+let parse_hist inp =
   match words inp with
-  | ["D"; n; script; lhs; rhs] -> Some (int_of_string n, script, unhexs lhs, unhexs rhs)
-  | ["C"; n; lhs; rhs] -> Some (int_of_string n, "", unhexs lhs, unhexs rhs)
+  | ["H"; ops; script; lhs; rhs] -> Some (parse_ops ops, script, unhexs lhs, unhexs rhs)
+  | ["HC"; ops; lhs; rhs] -> Some (parse_ops ops, "", unhexs lhs, unhexs rhs)
   | _ -> None
 
+let parse_input inp =
+  match words inp with
+  | ["D"; n; script; lhs; rhs] -> Some (z_of_string n, script, unhexs lhs, unhexs rhs)
+  | ["C"; n; lhs; rhs] -> Some (z_of_string n, "", unhexs lhs, unhexs rhs)
+  | _ -> None
+
+(* the bound "at most n context lines" as an OCaml int: max(n, 0), saturated (n may be 2^63-1) *)
+let clamp_n (zn : M.z) : int =
+  let rec bits = function M.XH -> 1 | M.XO p | M.XI p -> 1 + bits p in
+  match zn with
+  | M.Zpos p -> if bits p > 40 then max_int else int_of_z zn
+  | _ -> 0
+
+let script_of script lhs rhs =
+  if script = "" then (match M.edit_script_run leq lhs rhs with M.EOk es -> Some es | _ -> None)
+  else Some (parse_edits script)
+
+let eval_hist (ops, script, lhs, rhs) =
+  if String.length script >= 6 && String.sub script 0 6 = "panic:" then "ORACLE-PANIC" else
+  match script_of script lhs rhs with
+  | None -> "MODEL-OF-EDITSCRIPT-PANICS"
+  | Some es ->
+    if not (M.script_okb leq lhs rhs es) then "BAD-ORACLE: the recorded script does not transform lhs into rhs" else
+    let c0 = M.new_chunks es in
+    let stages = M.run_trace leq lhs rhs c0 ops in
+    let panicked = List.exists (function M.Panic _ -> true | _ -> false) stages in
+    let hs = if stages = [] then "none" else
+      String.concat "!" (List.map (function M.Ok cs -> str_chunks cs | M.Panic k -> panic_str k) stages) in
+    "E=" ^ str_edits es ^ " N=" ^ str_chunks c0 ^ " H=" ^ hs ^ " K=" ^ (if panicked then "-" else "111")
+
 let eval inp =
+  match parse_hist inp with
+  | Some h -> eval_hist h
+  | None ->
   match parse_input inp with
   | None -> "?"
   | Some (n, script, lhs, rhs) ->
@@ -62,7 +103,7 @@ let eval inp =
     | None -> "MODEL-OF-EDITSCRIPT-PANICS"
     | Some es ->
     if not (M.script_okb leq lhs rhs es) then "BAD-ORACLE: the recorded script does not transform lhs into rhs" else
-    let ((c0, c1), c2) = M.pipeline leq lhs rhs es (z_of_int n) in
+    let ((c0, c1), c2) = M.pipeline leq lhs rhs es n in
     let out = "E=" ^ str_edits es ^ " N=" ^ str_chunks c0 in
     (match c1 with
      | M.Panic k -> out ^ " A=" ^ panic_str k ^ " U=- K=-"
@@ -99,7 +140,83 @@ let nonemit_edits cs = List.concat (List.map (fun c -> M.changes c.M.edits) cs)
 
 let ( >>= ) o f = match o with Some r -> Some r | None -> f ()
 
+(* c1 is c0 with at most n context lines (one Emit edit) before and after, nothing else changed *)
+let ctx_step n (c0 : M.n list M.chunk) (c1 : M.n list M.chunk) =
+  let e0 = c0.M.edits and e1 = c1.M.edits in
+  let is_emit (e : M.n list M.edit) = (e.M.eop = M.Emit) in
+  let try_ pre post =
+    let l1 = List.length e1 and l0 = List.length e0 in
+    if l1 <> l0 + (if pre then 1 else 0) + (if post then 1 else 0) then false else
+    let e1' = if pre then List.tl e1 else e1 in
+    let pre_e = if pre then Some (List.hd e1) else None in
+    let mid = List.filteri (fun i _ -> i < l0) e1' in
+    let post_e = if post then Some (List.nth e1' l0) else None in
+    let lenx = function None -> 0 | Some (e : M.n list M.edit) -> List.length e.M.x in
+    let okctx = function None -> true | Some e -> is_emit e && e.M.x <> [] && List.length e.M.x <= n in
+    mid = e0 && okctx pre_e && okctx post_e
+    && int_of_z c1.M.lStart = int_of_z c0.M.lStart - lenx pre_e && int_of_z c1.M.rStart = int_of_z c0.M.rStart - lenx pre_e
+    && int_of_z c1.M.lEnd = int_of_z c0.M.lEnd + lenx post_e && int_of_z c1.M.rEnd = int_of_z c0.M.rEnd + lenx post_e in
+  try_ false false || try_ true false || try_ false true || try_ true true
+
+(* Unify: every new chunk spans a run of consecutive old chunks (from the first one's start to the
+   last one's end, on both sides), in order, all old chunks used; old chunks in different runs
+   were at least one line apart, those in the same run were not *)
+let unify_groups (prev : M.n list M.chunk list) (cur : M.n list M.chunk list) =
+  let rec go prev cur =
+    match cur, prev with
+    | [], [] -> true
+    | [], _ | _, [] -> false
+    | c :: cur', p :: prev' ->
+      if c.M.lStart <> p.M.lStart || c.M.rStart <> p.M.rStart then false else
+      let rec take (last : M.n list M.chunk) rest =
+        match rest with
+        | q :: rest' when int_of_z q.M.lStart <= int_of_z last.M.lEnd -> take q rest'
+        | _ -> (last, rest) in
+      let (last, rest) = take p prev' in
+      c.M.lEnd = last.M.lEnd && c.M.rEnd = last.M.rEnd && go rest cur' in
+  go prev cur
+
+let spec_hist (ops, _script, lhs, rhs) out =
+  match field out "E", field out "N", field out "H", field out "K" with
+  | Some e, Some ns, Some h, Some k ->
+    if is_panic ns then Some "New panicked" else
+    let es = parse_edits e and cn = parse_chunks ns in
+    let stages = if h = "none" then [] else String.split_on_char '!' h in
+    if List.exists is_panic stages then Some "a call panicked (history)" else
+    if List.length stages <> List.length ops then Some "history: wrong number of stages" else
+    (if M.script_okb leq lhs rhs es then None else Some "d.Edits does not transform Left into Right")
+    >>= fun () -> all_ok "New" lhs rhs cn
+    >>= fun () ->
+      let rec go i prev ops stages =
+        match ops, stages with
+        | [], _ | _, [] -> None
+        | o :: ops', s :: stages' ->
+          let cs = parse_chunks s in
+          let name = Printf.sprintf "call %d" i in
+          all_ok name lhs rhs cs
+          >>= fun () -> (if nonemit_edits cs = M.changes es then None else Some ("after " ^ name ^ ": the chunks' non-context edits are not those of the script"))
+          >>= fun () -> (if M.separatedb (z_of_int 0) cs && not (M.applies leq lhs rhs cs)
+                         then Some ("after " ^ name ^ ": chunks ascending and disjoint, but applying them to Left does not give Right") else None)
+          >>= fun () ->
+            (match o with
+             | M.HUnify ->
+               (if M.separatedb (z_of_int 1) cs then None else Some ("after " ^ name ^ " (Unify): chunks not ascending, disjoint and non-adjacent"))
+               >>= fun () -> (if M.applies leq lhs rhs cs then None else Some ("after " ^ name ^ " (Unify): applying the chunks to Left does not give Right"))
+               >>= fun () -> (if unify_groups prev cs then None else Some ("after " ^ name ^ " (Unify): the chunks are not the runs of touching chunks of the list before"))
+             | M.HAdd zn ->
+               let n = clamp_n zn in
+               if List.length cs <> List.length prev then Some ("after " ^ name ^ " (AddContext): number of chunks changed") else
+               if List.for_all2 (ctx_step n) prev cs then None
+               else Some ("after " ^ name ^ " (AddContext): a chunk is not the chunk before with at most n context lines before and after"))
+          >>= fun () -> go (i + 1) cs ops' stages' in
+      go 1 cn ops stages
+    >>= fun () -> (if k = "111" then None else Some ("aliasing: d.Edits / inputs disturbed or receiver not returned, flags " ^ k))
+  | _ -> Some "bad output syntax"
+
 let spec prop inp out =
+  match parse_hist inp with
+  | Some h when prop = "C13" -> spec_hist h out
+  | _ ->
   match prop, parse_input inp with
   | "C13", Some (n, _script, lhs, rhs) ->
     (match field out "E", field out "N", field out "A", field out "U", field out "K" with
@@ -108,7 +225,6 @@ let spec prop inp out =
        if is_panic a then Some "AddContext panicked" else
        if is_panic u then Some "Unify panicked" else
        let es = parse_edits e and cn = parse_chunks ns and ca = parse_chunks a and cu = parse_chunks u in
-       let zn = z_of_int n in
        (* Edits holds the full script: a valid script for (lhs, rhs) *)
        (if M.script_okb leq lhs rhs es then None else Some "d.Edits does not transform Left into Right")
        >>= fun () -> all_ok "New" lhs rhs cn
@@ -129,7 +245,7 @@ let spec prop inp out =
        >>= fun () -> (if List.for_all (fun c -> M.changes c.M.edits = c.M.edits) cn then None else Some "after New: a chunk contains an Emit edit")
        >>= fun () ->
          (if List.length ca <> List.length cn then Some "AddContext changed the number of chunks" else
-          let nn = max n 0 in
+          let nn = clamp_n n in
           let bad = List.exists2 (fun c0 c1 ->
             let pre = int_of_z (M.lead_ctx c1.M.edits) and post = int_of_z (M.trail_ctx c1.M.edits) in
             not (pre <= nn && post <= nn
@@ -139,7 +255,7 @@ let spec prop inp out =
                  && List.length c1.M.edits = List.length c0.M.edits + (if pre > 0 then 1 else 0) + (if post > 0 then 1 else 0))) cn ca in
           if bad then Some "after AddContext: a chunk is not the New chunk with at most n context lines before and after" else None)
        >>= fun () ->
-         (let nn = max n 0 in
+         (let nn = clamp_n n in
           if List.for_all (fun c -> int_of_z (M.lead_ctx c.M.edits) <= nn && int_of_z (M.trail_ctx c.M.edits) <= nn) cu then None
           else Some "after Unify: more than n context lines before or after a chunk")
        >>= fun () -> (if k = "1111" then None else Some ("aliasing: d.Edits / inputs disturbed or receiver not returned, flags " ^ k))
